@@ -68,9 +68,13 @@ def wbFar : List Nat → Option Nat
 
 def stateIs (state : Option Nat) (v : Nat) : Bool := state == some v
 
+/-- the three tests the code makes on `farProperty`: `== prALetter`, `== prHebrewLetter`, `== prNumeric` -/
+def farKey (far : Option Nat) : Bool × Bool × Bool :=
+  (far == some prALetter, far == some prHebrewLetter, far == some prNumeric)
+
 /-- `transitionWordBreakState` on classes; `gEP`: the grapheme table says Extended_Pictographic;
-`far` is what the look-ahead loop would return -/
-def transW (state : Option Nat) (nextProperty : Nat) (gEP : Bool) (far : Option Nat) : Nat × Bool :=
+`k`: what the tests on the look-ahead loop's result (`farProperty`) would give if the loop ran -/
+def transWK (state : Option Nat) (nextProperty : Nat) (gEP : Bool) (k : Bool × Bool × Bool) : Nat × Bool :=
   if nextProperty == prZWJ then
     if stateIs state wbNewline || stateIs state wbCR || stateIs state wbLF then (wbAny ||| wbZWJBit, true)
     else if state.isNone || stateIs state wbWSegSpace then (wbAny ||| wbZWJBit, false)
@@ -94,20 +98,24 @@ def transW (state : Option Nat) (nextProperty : Nat) (gEP : Bool) (far : Option 
       (stateIs state wbALetter || stateIs state wbHebrewLetter || stateIs state wbNumeric) &&
       (nextProperty == prMidLetter || nextProperty == prMidNumLet || nextProperty == prSingleQuote ||
         nextProperty == prDoubleQuote || nextProperty == prMidNum)
-    let farProperty : Option Nat := if lookAhead then far else none
+    -- farProperty stays -1 unless the loop runs
+    let k : Bool × Bool × Bool := if lookAhead then k else (false, false, false)
     if rule > 60 && (stateIs state wbALetter || stateIs state wbHebrewLetter) &&
         (nextProperty == prMidLetter || nextProperty == prMidNumLet || nextProperty == prSingleQuote) &&
-        (farProperty == some prALetter || farProperty == some prHebrewLetter) then (wbWB7, false)
-    else if rule > 72 && stateIs state wbHebrewLetter && nextProperty == prDoubleQuote &&
-        farProperty == some prHebrewLetter then (wbWB7c, false)
+        (k.1 || k.2.1) then (wbWB7, false)
+    else if rule > 72 && stateIs state wbHebrewLetter && nextProperty == prDoubleQuote && k.2.1 then (wbWB7c, false)
     else if rule > 120 && stateIs state wbNumeric &&
         (nextProperty == prMidNum || nextProperty == prMidNumLet || nextProperty == prSingleQuote) &&
-        farProperty == some prNumeric then (wbWB11, false)
+        k.2.2 then (wbWB11, false)
     else if newState == wbAny && nextProperty == prRegionalIndicator then
       if !stateIs state wbOddRI && !stateIs state wbEvenRI then (wbOddRI, true)
       else if stateIs state wbOddRI then (wbEvenRI, false)
       else (wbOddRI, true)
     else (newState, wordBreak)
+
+/-- `far` is what the look-ahead loop would return -/
+def transW (state : Option Nat) (nextProperty : Nat) (gEP : Bool) (far : Option Nat) : Nat × Bool :=
+  transWK state nextProperty gEP (farKey far)
 
 /-- `transitionWordBreakState(state, r, b, str)` -/
 def transitionWordBreakState (state : Option Nat) (r : Nat) (rest : List Nat) : Nat × Bool :=
